@@ -9,15 +9,15 @@ CONSTANTS
   RecvWin = 4
   MaxBuf = 4
   MaxSend0 = 1
-  NCall = 2
+  NCall = 1
   NApp = 1
   NPeer = 2
   MaxData = 1
-  CallKinds = {"poll_ready", "poll_reset"}
-  AppKinds = {"request", "request_keep", "send_reset", "drop_send", "drop_recv"}
-  PeerKinds = {"SET_MAXC", "HEADERS", "RST", "EOF"}
+  CallKinds = {"poll_ready", "poll_response"}
+  AppKinds = {"request", "request_keep", "drop_sr", "send_reset", "send_data", "drop_send", "drop_recv"}
+  PeerKinds = {"SET_MAXC", "HEADERS", "RST"}
   IwsVals = {}
-  MaxcVals = {0, 2}
+  MaxcVals = {0, 1}
   ReqEos = {FALSE, TRUE}
   Allow = {"shared_slot", "push_after_recv_drop", "cancel_pending_open"}
   ExportLen = 0
